@@ -222,6 +222,30 @@ func (f Fn) Expr() N {
 func EvalD(vars []string, decls []Decl, body []N) N {
 	return N{"evd(" + bodySX(vars, decls, body) + ")", "eval(" + strconv.Quote(bodyJS(vars, decls, body, 0)) + ")"}
 }
+
+// EvalX is a direct eval whose code text is NOT spelled in the source of the enclosing function: the string is put
+// together from two-character pieces (what the code says is the same as with EvalD).
+func EvalX(vars []string, decls []Decl, body []N) N {
+	return N{"evx(" + bodySX(vars, decls, body) + ")", "eval(" + ChunkedString(bodyJS(vars, decls, body, 0)) + ")"}
+}
+
+// ChunkedString renders s as "ab" + "cd" + … so that no identifier of s occurs in the program text.
+func ChunkedString(s string) string {
+	var parts []string
+	r := []rune(s)
+	for i := 0; i < len(r); i += 2 {
+		j := i + 2
+		if j > len(r) {
+			j = len(r)
+		}
+		parts = append(parts, strconv.Quote(string(r[i:j])))
+	}
+	if len(parts) == 0 {
+		return `""`
+	}
+	return "(" + strings.Join(parts, " + ") + ")"
+}
+
 func EvalI(vars []string, decls []Decl, body []N) N {
 	return N{"evi(" + bodySX(vars, decls, body) + ")", "(0, eval)(" + strconv.Quote(bodyJS(vars, decls, body, 0)) + ")"}
 }
